@@ -232,6 +232,7 @@ def run_script(script, mode, tid):
     env = Env(clock)
     clock.on_sleep = lambda secs, n: env.ev.append({"op": "sleep", "d": n, "ms": int(round(secs * 1000)), "now": clock.now() - n})
     saved = (dns.resolver.time, dns.asyncresolver.time)
+    stubs = None
     dns.resolver.time = clock
     dns.asyncresolver.time = clock
     try:
@@ -239,7 +240,24 @@ def run_script(script, mode, tid):
             res = dns.resolver.Resolver(configure=False)
         else:
             res = dns.asyncresolver.Resolver(configure=False)
-        res.nameservers = [ScriptedNameserver(env, i + 1) for i in range(cfg["ns"])]
+        glue = cfg.get("glue", "scripted") == "do53"
+        if glue:
+            # REAL Do53Nameserver objects; the transports they call are stubbed (see Transports)
+            res.nameservers = [dns.nameserver.Do53Nameserver("192.0.2.%d" % (i + 1), 53) for i in range(cfg["ns"])]
+
+            def handler(transport, is_async, q, where, kw):
+                idx = int(str(where).rsplit(".", 1)[1])
+                try:
+                    return env.serve(idx, q, kw.get("timeout"), transport == "tcp")
+                except dns.message.Truncated:  # the scripted reply has TC set
+                    if transport == "udp" and kw.get("raise_on_truncation"):
+                        raise
+                    return tc_message(q)
+            stubs = Transports(handler)
+            stubs.__enter__()
+        else:
+            stubs = None
+            res.nameservers = [ScriptedNameserver(env, i + 1) for i in range(cfg["ns"])]
         res.rotate = False
         res.retry_servfail = cfg["rsf"]
         res.timeout = cfg["tmo"] * TICK
@@ -293,6 +311,8 @@ def run_script(script, mode, tid):
             i = j
     finally:
         dns.resolver.time, dns.asyncresolver.time = saved
+        if stubs is not None:
+            stubs.__exit__()
     return {"tid": tid, "mode": mode, "cfg": cfg, "ev": env.ev}
 
 
@@ -337,3 +357,157 @@ def chain_job(job):
     except BaseException as ex:  # noqa
         e = {"op": "crash", "exc": type(ex).__name__, "msg": str(ex)[:200]}
     return {"tid": tid, "ev": [e]}
+
+
+# --------------------------------------------------------------------------------------
+# The real nameserver glue (dns.nameserver) over stubbed transports.
+# dns.query.udp/tcp/https/tls/quic and their dns.asyncquery twins are rebound, in this
+# process only and only for the duration of one call, to recording stubs.
+
+_TRANSPORTS = ("udp", "tcp", "https", "tls", "quic")
+_KNOWN = {"timeout", "port", "source", "source_port", "one_rr_per_rrset", "ignore_trailing", "raise_on_truncation",
+          "ignore_errors", "ignore_unexpected", "verify", "post", "server_hostname", "bootstrap_address", "backend",
+          "http_version"}
+
+
+def _tri(kw, key):
+    if key not in kw:
+        return "absent"
+    return "true" if kw[key] else "false"
+
+
+def _opt_str(kw, key):
+    if key not in kw:
+        return "absent"
+    return "none" if kw[key] is None else str(kw[key])
+
+
+def project_args(transport, where, kw):
+    """Uniformly typed projection of one transport call (see NameserverGlue.tla)."""
+    t = kw.get("timeout")
+    if t is None:
+        ticks = -1
+    else:
+        ticks, exact = VClock(TICK).exact_ticks(t)
+        if not exact:
+            ticks = -2
+    return {"transport": transport, "where": str(where), "port": int(kw["port"]) if "port" in kw else -1, "timeout": ticks,
+            "source": _opt_str(kw, "source"), "source_port": int(kw["source_port"]) if "source_port" in kw else -1,
+            "one_rr": _tri(kw, "one_rr_per_rrset"), "ignore_trailing": _tri(kw, "ignore_trailing"),
+            "raise_on_truncation": _tri(kw, "raise_on_truncation"), "ignore_errors": _tri(kw, "ignore_errors"),
+            "ignore_unexpected": _tri(kw, "ignore_unexpected"), "verify": _tri(kw, "verify"), "post": _tri(kw, "post"),
+            "server_hostname": _opt_str(kw, "server_hostname"), "bootstrap": _opt_str(kw, "bootstrap_address"),
+            "backend": "given" if kw.get("backend") is not None else "absent",
+            "extra": sorted(k for k in kw if k not in _KNOWN)}
+
+
+def tc_message(request):
+    r = dns.message.make_response(request)
+    r.flags |= dns.flags.TC
+    return r
+
+
+class Transports:
+    """Context manager: rebinds the transport functions of dns.query and dns.asyncquery to
+    stubs that call handler(transport, is_async, request, where, kwargs)."""
+
+    def __init__(self, handler):
+        self.handler = handler
+        self.saved = []
+
+    def __enter__(self):
+        import dns.asyncquery
+        import dns.query
+        for name in _TRANSPORTS:
+            self.saved.append((dns.query, name, getattr(dns.query, name)))
+            self.saved.append((dns.asyncquery, name, getattr(dns.asyncquery, name)))
+            setattr(dns.query, name, self._sync(name))
+            setattr(dns.asyncquery, name, self._async(name))
+        return self
+
+    def __exit__(self, *a):
+        for mod, name, fn in self.saved:
+            setattr(mod, name, fn)
+        self.saved = []
+
+    def _sync(self, name):
+        def stub(q, where, *args, **kw):
+            if args:
+                kw["__positional__"] = len(args)
+            return self.handler(name, False, q, where, kw)
+        return stub
+
+    def _async(self, name):
+        async def stub(q, where, *args, **kw):
+            if args:
+                kw["__positional__"] = len(args)
+            return self.handler(name, True, q, where, kw)
+        return stub
+
+
+def transport_reply(transport, request, kw, reply):
+    """What a transport does with a scripted reply: dns.query.udp raises Truncated for a reply
+    with TC iff it was asked to; the other transports return such a reply as it is."""
+    if reply == "ok":
+        return dns.message.make_response(request)
+    if reply == "tc":
+        if transport == "udp" and kw.get("raise_on_truncation"):
+            raise dns.message.Truncated()
+        return tc_message(request)
+    raise _EXC[reply.split(":", 1)[1]]()
+
+
+def make_nameserver(c):
+    if c["kind"] == "Do53":
+        return dns.nameserver.Do53Nameserver(c["where"], c["port"])
+    if c["kind"] == "DoH":
+        return dns.nameserver.DoHNameserver(c["where"], bootstrap_address=c["bootstrap"], verify=c["verify"], want_get=c["wantget"])
+    if c["kind"] == "DoT":
+        return dns.nameserver.DoTNameserver(c["where"], c["port"], c["hostname"], c["verify"])
+    if c["kind"] == "DoQ":
+        return dns.nameserver.DoQNameserver(c["where"], c["port"], c["verify"], c["hostname"])
+    raise ValueError(c["kind"])
+
+
+def glue_job(job):
+    """job = (case, tid), case = {call, reply} from MC_NameserverGlue: call the REAL nameserver object's
+    query() and async_query() and record the transport call each makes and what comes back."""
+    case, tid = job
+    c = case["call"]
+    ev = []
+    try:
+        request = dns.message.make_query("www.example.", "A")
+        for mode in ("sync", "async"):
+            seen = []
+
+            def handler(transport, is_async, q, where, kw):
+                seen.append({"transport": transport, "is_async": is_async, "same_request": q is request,
+                             "args": project_args(transport, where, kw)})
+                return transport_reply(transport, q, kw, case["reply"])
+
+            ns = make_nameserver(c)
+            args = dict(request=request, timeout=c["tmo"] * TICK, source=None if c["source"] == "none" else c["source"],
+                        source_port=c["sport"], max_size=c["maxsize"], one_rr_per_rrset=c["onerr"], ignore_trailing=c["itrail"])
+            outcome = None
+            with Transports(handler):
+                try:
+                    if mode == "sync":
+                        r = ns.query(**args)
+                    else:
+                        r = get_loop().run_until_complete(ns.async_query(backend=VBackend(VClock(TICK)), **args))
+                    outcome = ["return", "tc" if r.flags & dns.flags.TC else "ok"]
+                except dns.message.Truncated:
+                    outcome = ["raise", "Truncated"]
+                except dns.exception.Timeout:
+                    outcome = ["raise", "exc:Timeout"]
+                except dns.exception.FormError:
+                    outcome = ["raise", "exc:FormError"]
+                except OSError:
+                    outcome = ["raise", "exc:OSError"]
+            if len(seen) != 1 or seen[0]["is_async"] != (mode == "async") or not seen[0]["same_request"]:
+                ev.append({"op": "nscall-odd", "mode": mode, "calls": len(seen)})
+            else:
+                ev.append({"op": "nscall", "mode": mode, "args": seen[0]["args"], "outcome": outcome})
+    except BaseException as ex:  # noqa
+        ev.append({"op": "crash", "exc": type(ex).__name__, "msg": str(ex)[:200]})
+    return {"tid": tid, "call": c, "reply": case["reply"], "ev": ev}
